@@ -8,5 +8,8 @@ def fill(add, not_yet):
     add("C01", "Lean 4 theorems (min-plus/split_queue recursion optimal in any linear order with monotone +c) + bit-exact Float/Float32 correspondence with FermatSolver",
         "Proof: solve_optimal/scanMin_spec/solve_sandwich hold for every number of legs, set sizes and time tables; the constants they speak about are executed by the driver and agree bit for bit with arim on every generated case; a brute-force oracle decides the property on the implementation.",
         STD_NOTE + "Transfer to IEEE doubles assumes monotonicity of fl(x+c) and a linear order on non-NaN doubles.")
-    for p in ["C02","C03","C04","C05","C06","C07","C08","C09","C10","C11","C12","C13","C14","C15","C16","C17","C18","C19","C20"]:
+    add("C13", "Lean 4 theorems (chunk_array partitions every axis for every block size; tiles partition the output; any interleaving of task programs gives the same array) + exact correspondence of chunk/tile lists + bitwise schedule exploration",
+        "Proof for the decomposition logic (chunk_partition, tiles_partition, schedule_independent, untouched) for all sizes, block sizes and interleavings; the tile lists the theorems speak about are compared with the views arim really hands to its executor; bitwise equality is explored under permuted, lazy and real executors, thread counts, block sizes and numba thread counts.",
+        STD_NOTE + "Real concurrency inside numba prange/nogil kernels and the thread pool is explored, not proved.")
+    for p in ["C02","C03","C04","C05","C06","C07","C08","C09","C10","C11","C12","C14","C15","C16","C17","C18","C19","C20"]:
         not_yet[p] = "check not built yet in this round (work in progress; Lean-4 proof + correspondence planned, see DESIGN.md section 6)"
